@@ -5,6 +5,12 @@ package run_test
 // C05 - a distributed query reads every shard exactly once or fails. DESIGN.md section 4, C05.
 
 import (
+	"github.com/influxdata/influxdb/tsdb/cursors"
+	"github.com/influxdata/influxdb/storage/reads/datatypes"
+	"github.com/influxdata/influxdb/services/storage"
+	"github.com/gogo/protobuf/types"
+	"sort"
+	"context"
 	"io"
 	"net/url"
 	"net/http"
@@ -162,6 +168,10 @@ func TestVerifC05DistributedQuery(t *testing.T) {
 			{"showFieldKeys", "SHOW FIELD KEYS", func(r vkResult) string { return vkWantContains(r, "[v float]") }},
 			{"showSeries", "SHOW SERIES", func(r vkResult) string { return vkWantRows(r, nm*total) }},
 		}
+		// storage reads (Flux): every stored value exactly once - two fields per point
+		stmts = append(stmts,
+			vkStmt{"storageRead", fmt.Sprintf("storage %d %d", (base-3600)*1e9, (base+int64(groups+1)*3600)*1e9), func(r vkResult) string { return vkWantRows(r, 2*nm*total) }},
+			vkStmt{"storageRead", fmt.Sprintf("storage %d %d", (base-3600)*1e9, (base+int64(groups+1)*3600)*1e9), func(r vkResult) string { return vkWantRows(r, 2*nm*total) }})
 		if twoMeasurements {
 			wantBoth := func(n int) func(r vkResult) string {
 				return func(r vkResult) string {
@@ -246,6 +256,17 @@ func TestVerifC05DistributedQuery(t *testing.T) {
 					return ""
 				}})
 			}
+			{
+				nn := n
+				lo, hi := boundLo, boundHi
+				if lo < base-3600 {
+					lo = base - 3600
+				}
+				if hi > base+int64(groups+1)*3600 {
+					hi = base + int64(groups+1)*3600
+				}
+				stmts = append(stmts, vkStmt{"storageReadBounded", fmt.Sprintf("storage %d %d", lo*1e9, hi*1e9) /* the range end is inclusive in this storage API */, func(r vkResult) string { return vkWantRows(r, 2*nm*nn) }})
+			}
 			wantCount := func(r vkResult) string {
 				if n == 0 {
 					return vkWantSeries(r, 0)
@@ -260,7 +281,7 @@ func TestVerifC05DistributedQuery(t *testing.T) {
 			)
 		}
 		st := rapid.SampledFrom(stmts).Draw(rt, "stmt")
-		r0 := cl.query(coord, db, st.Text)
+		r0 := vkExec(cl, coord, db, st.Text)
 		if r0.Err != "" {
 			rt.Fatalf("%s fault-free %q on node %d failed: %s", verifkit.Sig("fault-free-query-error"), st.Text, coord, r0.Err)
 		}
@@ -310,7 +331,7 @@ func TestVerifC05DistributedQuery(t *testing.T) {
 				nd.proxy.setFault(f)
 			}
 		}
-		rf1 := cl.query(coord, db, st.Text)
+		rf1 := vkExec(cl, coord, db, st.Text)
 		// undo faults before judging (so that a failing case leaves the shared cluster usable)
 		avoided := 0
 		faultyAsked := false
@@ -342,6 +363,7 @@ func TestVerifC05DistributedQuery(t *testing.T) {
 		}
 		// must succeed when every shard (of the statement's time range) keeps an owner that answers at request time
 		bounded := strings.HasSuffix(st.Kind, "Bounded")
+		storageRead := strings.HasPrefix(st.Kind, "storage")
 		inRange := map[uint64]bool{}
 		if rpi, err := cl.nodes[0].srv.MetaClient.RetentionPolicy(db, "rp"); err == nil && rpi != nil {
 			for _, sg := range rpi.ShardGroups {
@@ -394,10 +416,13 @@ func TestVerifC05DistributedQuery(t *testing.T) {
 				servable = false
 			}
 		}
-		anyFault := false
+		anyFault, anyDisabled := false, false
 		for _, f := range faults {
 			if f.Kind != "up" {
 				anyFault = true
+			}
+			if f.Kind == "disabled" {
+				anyDisabled = true
 			}
 		}
 		listing := st.Kind == "showMeasurements" || st.Kind == "showTagKeys" || st.Kind == "showTagValues"
@@ -408,7 +433,7 @@ func TestVerifC05DistributedQuery(t *testing.T) {
 			// known finding show-listing-ignores-node-errors: excluded from the main campaign
 			stats.Exclude("show-listing-ignores-node-errors")
 			outcome = "excluded-known"
-		} else if rf1.String() != r0.String() && len(rf1.Rows) == 0 && ((!anyGood && !strings.HasPrefix(st.Kind, "show")) || (!localKnows && anyFault && !listing)) {
+		} else if rf1.String() != r0.String() && len(rf1.Rows) == 0 && !storageRead && ((!anyGood && !strings.HasPrefix(st.Kind, "show")) || (!localKnows && anyFault && !listing)) {
 			// known finding maptype-rpc-failure-yields-empty-result: field types (MapType / FieldDimensions) have no
 			// error path. (a) No node that can be reached knows the field (every shard of the time range that holds a
 			// point has only failing owners): the type stays unknown and the SELECT is empty instead of failing.
@@ -418,6 +443,12 @@ func TestVerifC05DistributedQuery(t *testing.T) {
 			// iterator is created at all, and SELECT / SHOW SERIES / SHOW FIELD KEYS return an empty result and no
 			// error - even when another owner is alive. Excluded from the main campaign (directed test below).
 			stats.Exclude("maptype-rpc-failure-yields-empty-result")
+			outcome = "excluded-known"
+		} else if rf1.String() != r0.String() && storageRead && anyDisabled {
+			// known finding storage-read-skips-unavailable-shards: tsdb.CreateCursorIterators skips a shard that is
+			// disabled or closed ("we can safely skip those shards"), so a node asked to serve such a shard for a
+			// storage read answers without it and without an error; the coordinator has nothing to fail over on.
+			stats.Exclude("storage-read-skips-unavailable-shards")
 			outcome = "excluded-known"
 		} else if rf1.String() != r0.String() {
 			rt.Fatalf("%s %q on node %d under faults %v returned a result that differs from the fault-free result and is not an error (rf=%d, owners %v; requests seen by the proxies: %v)\n--- under faults\n%s\n--- fault-free\n%s",
@@ -443,6 +474,85 @@ func TestVerifC05DistributedQuery(t *testing.T) {
 			stats.Sample(nil)
 		}
 	})
+}
+
+// vkExec runs an InfluxQL statement, or - for texts of the form "storage <startNs> <endNs>" - a storage
+// ReadFilter (what a Flux from() |> range() issues) over [start, end) through the node's ClusterStore.
+func vkExec(cl *vkCluster, node int, db, text string) vkResult {
+	if !strings.HasPrefix(text, "storage ") {
+		return cl.query(node, db, text)
+	}
+	var lo, hi int64
+	fmt.Sscanf(text, "storage %d %d", &lo, &hi)
+	srv := cl.nodes[node].srv
+	cs := storage.NewClusterStore(srv.ClusterStore, srv.MetaClient, srv.MetaExecutor)
+	src, err := types.MarshalAny(&storage.ReadSource{Database: db, RetentionPolicy: "rp"})
+	if err != nil {
+		return vkResult{Err: "harness: " + err.Error()}
+	}
+	rs, err := cs.ReadFilter(context.Background(), &datatypes.ReadFilterRequest{ReadSource: src, Range: datatypes.TimestampRange{Start: lo, End: hi}})
+	if err != nil {
+		return vkResult{Err: err.Error()}
+	}
+	var out vkResult
+	if rs == nil {
+		return out
+	}
+	defer rs.Close()
+	var lines []string
+	for rs.Next() {
+		var key string
+		for _, tag := range rs.Tags() {
+			key += string(tag.Key) + "=" + string(tag.Value) + ","
+		}
+		cur := rs.Cursor()
+		if cur == nil {
+			continue
+		}
+		add := func(ts []int64, v func(i int) interface{}) {
+			for i := range ts {
+				lines = append(lines, fmt.Sprintf("%s %d=%v", key, ts[i], v(i)))
+			}
+		}
+		switch c := cur.(type) {
+		case cursors.FloatArrayCursor:
+			for a := c.Next(); a.Len() > 0; a = c.Next() {
+				add(a.Timestamps, func(i int) interface{} { return a.Values[i] })
+			}
+		case cursors.IntegerArrayCursor:
+			for a := c.Next(); a.Len() > 0; a = c.Next() {
+				add(a.Timestamps, func(i int) interface{} { return a.Values[i] })
+			}
+		case cursors.UnsignedArrayCursor:
+			for a := c.Next(); a.Len() > 0; a = c.Next() {
+				add(a.Timestamps, func(i int) interface{} { return a.Values[i] })
+			}
+		case cursors.StringArrayCursor:
+			for a := c.Next(); a.Len() > 0; a = c.Next() {
+				add(a.Timestamps, func(i int) interface{} { return a.Values[i] })
+			}
+		case cursors.BooleanArrayCursor:
+			for a := c.Next(); a.Len() > 0; a = c.Next() {
+				add(a.Timestamps, func(i int) interface{} { return a.Values[i] })
+			}
+		}
+		if err := cur.Err(); err != nil {
+			cur.Close()
+			return vkResult{Err: err.Error()}
+		}
+		cur.Close()
+	}
+	if err := rs.Err(); err != nil {
+		return vkResult{Err: err.Error()}
+	}
+	sort.Strings(lines)
+	var sb strings.Builder
+	sb.WriteString("storage points\n")
+	for _, l := range lines {
+		sb.WriteString("  [" + l + "]\n")
+	}
+	out.Rows = []string{sb.String()}
+	return out
 }
 
 func vkWantContains(r vkResult, sub string) string {
@@ -607,5 +717,58 @@ func TestVerifC05KFStreamCutAtFrameBoundary(t *testing.T) {
 	}
 	if mapTypeSilent > 0 {
 		stats.KnownReproduced("maptype-rpc-failure-yields-empty-result", fmt.Sprintf("%d of 10 cut offsets inside the MapType response of the only node holding the field returned an empty result and no error", mapTypeSilent))
+	}
+}
+
+// Directed campaign for known finding storage-read-skips-unavailable-shards: a storage read (Flux) over
+// shards of which one copy is disabled on its only owner.
+func TestVerifC05KFStorageReadSkipsDisabledShard(t *testing.T) {
+	stats := verifkit.For("C05", "TestVerifC05KFStorageReadSkipsDisabledShard", "directed: RF=1, six hourly groups spread over three nodes; the shards of one remote node are disabled (the node answers, its shards cannot be read); a storage ReadFilter over the whole range on another node")
+	defer stats.Flush()
+	cl, err := vkSharedCluster()
+	if err != nil {
+		vkSetupFailed(t, "cluster: %v", err)
+	}
+	db := fmt.Sprintf("c05kfs_%d", os.Getpid())
+	if err := cl.createDB(db, 1, time.Hour); err != nil {
+		vkSetupFailed(t, "createDB: %v", err)
+	}
+	defer cl.dropDB(db)
+	var pts []models.Point
+	base := int64(1600000000) - int64(1600000000)%3600
+	for g := 0; g < 6; g++ {
+		for i := 0; i < 4; i++ {
+			pts = append(pts, models.MustNewPoint("m", models.NewTags(map[string]string{"h": fmt.Sprintf("g%di%d", g, i)}), models.Fields{"v": 1.0}, time.Unix(base+int64(g)*3600+int64(i), 0)))
+		}
+	}
+	if err := cl.writeAllUp(0, db, pts); err != nil {
+		vkSetupFailed(t, "write: %v", err)
+	}
+	if err := cl.syncMeta(); err != nil {
+		vkSetupFailed(t, "%v", err)
+	}
+	text := fmt.Sprintf("storage %d %d", (base-3600)*1e9, (base+8*3600)*1e9)
+	r0 := vkExec(cl, 0, db, text)
+	if r0.Err != "" || vkWantRows(r0, len(pts)) != "" {
+		t.Fatalf("%s fault-free storage read is wrong: %s %s", verifkit.Sig("fault-free-result-wrong"), r0.Err, vkWantRows(r0, len(pts)))
+	}
+	owners := cl.shardOwners(db)
+	set := func(enabled bool) {
+		for id, os := range owners {
+			for _, o := range os {
+				if o == cl.nodes[1].id {
+					cl.nodes[1].srv.TSDBStore.SetShardEnabled(id, enabled)
+				}
+			}
+		}
+	}
+	set(false)
+	r1 := vkExec(cl, 0, db, text)
+	set(true)
+	stats.Case(true, "disabled-shards-on-node-1", "directed")
+	stats.Case(true, fmt.Sprint("silent=", r1.Err == "" && r1.String() != r0.String()), "directed")
+	stats.Sample(map[string]interface{}{"layout": "rf=1, 6 hourly groups x 4 points, node 1's shards disabled", "rows_fault_free": len(pts), "error_under_fault": r1.Err, "rows_under_fault": strings.Count(r1.String(), "\n  [")})
+	if r1.Err == "" && r1.String() != r0.String() {
+		stats.KnownReproduced("storage-read-skips-unavailable-shards", fmt.Sprintf("a storage read over 24 points returned %d points and no error while one node's shards were disabled", strings.Count(r1.String(), "\n  [")))
 	}
 }
